@@ -28,7 +28,7 @@ def element_access(n):
 def run(ctx):
     ctx.clause = ("inside the Myers diff implementation every comparison of two sequence elements goes through the "
                   "caller's equality functor; no raw == on elements is reachable from compute_diff")
-    ctx.rules = ["R-EQFUNCTOR", "R-TRACELCS", "R-WINDOW"]
+    ctx.rules = ["R-EQFUNCTOR", "R-TRACELCS", "R-WINDOW", "R-EQFORWARD"]
     P = ctx.program(UNITS)
     roots = [u for u, f in P.funcs.items() if f.q == "abigail::diff_utils::compute_diff" and f.inst]
     ctx.floor("R-EQFUNCTOR", "instantiations of diff_utils::compute_diff", len(roots), 10)
@@ -60,10 +60,57 @@ def run(ctx):
                "diff_utils functions reachable from compute_diff: %s" % names)
     ctx.floor("R-EQFUNCTOR", "functor calls on sequence elements", n_eq, 4)
     check_tracelcs(ctx, P, du)
+    check_eqforward(ctx, P)
     nw = check_window(ctx, P, du)
     ctx.note("R-WINDOW: %d two-ended window(s) in the diff_utils functions reachable from compute_diff (0 is expected "
              "today; the seeded variant C38-common-head-and-tail-stripped is the positive example of the thorough tier)" % nw)
     ctx.assume("correctness and minimality of the edit script are not decided")
+
+
+def check_eqforward(ctx, P):
+    """R-EQFORWARD: the caller's predicate is handed on.  The equality functor of the diff_utils templates is a type
+    template parameter that no function parameter mentions (it cannot be deduced; an instance is built where elements are
+    compared).  Looking at the template definitions themselves - libabigail instantiates only some of the overloads, the
+    others are API: inside a function template that has such a parameter T, every call of a diff_utils function
+    template of which some overload has a non-deducible parameter names T explicitly in that position.  A call that
+    leaves it out resolves - silently - to the overload hard-wired to default_eq_functor and the script is computed with
+    == instead of the predicate the caller gave."""
+    import re
+    pats = {}
+    for f in P.all_funcs():
+        if f.dep and f.q.startswith("abigail::diff_utils::") and f.r.get("tp") and not f.cls:
+            pats.setdefault((f.file, f.l0), f)
+
+    def nondeduced(f):
+        ptypes = " ".join((f.unit.type(p["t"]) or {}).get("s", "") for p in f.params() if p)
+        return [i for i, t in enumerate(f.r["tp"]) if not re.search(r"\b%s\b" % re.escape(t), ptypes)]
+    by_name = {}
+    for f in pats.values():
+        by_name.setdefault(f.n, []).append(f)
+    n = 0
+    for f in sorted(pats.values(), key=lambda x: x.l0):
+        nd = nondeduced(f)
+        if not nd:
+            continue
+        ctx.analysed(f)
+        for x in f.nodes():
+            if x["k"] != "UnresolvedLookupExpr" or x.get("n") not in by_name:
+                continue
+            pos = sorted({i for g in by_name[x["n"]] for i in nondeduced(g)})
+            if not pos:
+                continue
+            n += 1
+            ta = x.get("ta") or []
+            mine = [f.r["tp"][i] for i in nd]
+            ok = all(i < len(ta) and ta[i] in mine for i in pos)
+            k = sum(1 for y in f.nodes() if y["k"] == "UnresolvedLookupExpr" and y.get("n") == x["n"] and y["i"] < x["i"])
+            ctx.ob("R-EQFORWARD", "%s(%s): call of %s%s" % (f.n, ", ".join((p or {}).get("n", "?") for p in f.params()), x["n"],
+                                                            "" if k == 0 else " #%d" % (k + 1)),
+                   ok, f.loc(x),
+                   "%s<%s>: the predicate parameter is named explicitly" % (x["n"], ", ".join(ta)) if ok else
+                   "%s<%s>(...) does not name `%s`: overload resolution falls back to the overload that compares with "
+                   "default_eq_functor, and the predicate given to %s is ignored" % (x["n"], ", ".join(ta), "/".join(mine), f.n))
+    ctx.floor("R-EQFORWARD", "calls between diff_utils templates that carry the predicate", n, 8)
 
 
 def _decl_of(f, n):
